@@ -27,13 +27,14 @@ def vtext(nix):
 
 OPS = ([("set", k, v) for k in ("a", "z", "m") for v in ("5", '"s"', "{ k = 1; }")]
        + [("del", k) for k in ("a", "z", "m", "b")] + [("get", k) for k in ("a", "m", "zz")]
-       + [("nset", "m", "zz", "5"), ("ndel", "m", "x"), ("nset", "a", "k", "5"), ("sset", "v", "5"), ("sdel", "v"), ("sset", "nw", "5"), ("sget", "v")])
+       + [("del", "enable"), ("ndel", "b", "enable"), ("sdel", "x"),
+          ("nset", "m", "zz", "5"), ("ndel", "m", "x"), ("nset", "a", "k", "5"), ("sset", "v", "5"), ("sdel", "v"), ("sset", "nw", "5"), ("sget", "v")])
 
 
 def docs(tier):
     for d, t in E.documents(tier):
         w, c = d.split("/")
-        if w in ("bare", "lambda", "let", "lambda-call", "let2", "rec") and c in ("flat", "nested", "attrpath", "attrpath1", "comments", "attrpath-deep", "inline"):
+        if w in ("bare", "lambda", "let", "lambda-call", "let2", "rec", "let-twins") and c in ("flat", "nested", "attrpath", "attrpath1", "comments", "attrpath-deep", "inline", "twins"):
             yield d, t
 
 
@@ -181,6 +182,11 @@ def run(tier, seed):
             k = int(sym.split(":")[0][4:])
             w, c = d.split("/")
             sig = f"{sym.split(':', 1)[1]}|{' '.join(map(str, s[k]))}|content={c}|wrapper={w}"
+            # known root cause: operations on an attrpath-derived root (or inside one) leave stale render-order entries
+            key = s[k][1]
+            if "disagree" in sym and s[k][0] in ("set", "del", "nset", "ndel") and E.is_attrpath_root(t, key):
+                sig = f"{sym.split(':', 1)[1]}|{s[k][0]} on an attrpath-derived root"
+                k = 0
             if k > 0:
                 # the same step failing on the unmodified document is the same defect
                 if eval_script(d, t, [s[k]]) == "step0:" + sym.split(":", 1)[1]:
